@@ -37,6 +37,7 @@ import (
 type startRecorder struct {
 	inner scanListener
 	start string
+	env   *scanEnv
 }
 
 func (s *startRecorder) ListenToEvents(ctx context.Context, startBlock *big.Int) {
@@ -45,7 +46,7 @@ func (s *startRecorder) ListenToEvents(ctx context.Context, startBlock *big.Int)
 	} else {
 		s.start = startBlock.String()
 	}
-	s.inner.ListenToEvents(ctx, startBlock)
+	s.env.guarded(s.inner, ctx, startBlock)
 }
 
 type poller interface{ PollEvents(ctx context.Context) }
@@ -91,7 +92,7 @@ func runLifetimes(kind string, conf, k int64, nh int, cfgStart, flags, stored0, 
 			li := li
 			e.onCall = func(idx int, s, end *big.Int) { onCall(li, idx, s, end) }
 		}
-		rec := &startRecorder{inner: e.build()}
+		rec := &startRecorder{inner: e.build(), env: e}
 		ctx, cancel := context.WithCancel(context.Background())
 		e.cancel = cancel
 		wireChain(kind, e.bs, cfgStart, latest, fresh, boot, k, rec).PollEvents(ctx)
@@ -170,6 +171,9 @@ func (c c05BtcConn) GetBlockHash(int64) (*chainhash.Hash, error) {
 func (c c05BtcConn) GetBlockVerboseTx(*chainhash.Hash) (*btcjson.GetBlockVerboseTxResult, error) {
 	if c.failAt == "block" {
 		return nil, errRPC
+	}
+	if c.failAt == "nilblock" { // a misbehaving node: no error, no block
+		return nil, nil
 	}
 	return &btcjson.GetBlockVerboseTxResult{}, nil
 }
@@ -265,6 +269,9 @@ func genLife(g *G, kind string, k int64, nh int, head int64, maxRounds int, allo
 		r := hs + ":" + fail + ":" + st
 		if allowCrash && j == n-1 && g.Intn(2) == 0 {
 			r += ":" + itoa(g.Intn(nh+2))
+		} else if allowCrash && g.Intn(9) == 0 {
+			// a handler panics: the lifetime ends with this round
+			r = hs + ":p" + itoa(g.Intn(nh)) + ":" + st
 		}
 		rs = append(rs, r)
 	}
@@ -283,7 +290,7 @@ func genC05(g *G) {
 		g.Emit("hfetch", "subretry", f)
 		g.Emit("hfetch", "subsys", f)
 	}
-	for _, f := range []string{"-", "hash", "block"} {
+	for _, f := range []string{"-", "hash", "block", "nilblock"} {
 		g.Emit("hfetch", "btcdeposit", f)
 	}
 	// CalculateStartingBlock grid
@@ -319,6 +326,40 @@ func genC05(g *G) {
 							g.Emit("life", kind, "2", itoa64(k), itoa(nh), itoa64(start), "-", "none", "0", l1+"|"+l2)
 						}
 					}
+				}
+			}
+		}
+	}
+	// handler panics (every handler index, every kind), followed by clean rounds in the same script and a restart
+	for _, kind := range kinds {
+		for nh := 1; nh <= 3; nh++ {
+			for pi := 0; pi < nh; pi++ {
+				for _, k := range []int64{1, 2} {
+					if kind == "btc" && k > 1 {
+						continue
+					}
+					h := itoa64(3 + 6*k)
+					l1 := h + ":n:s;" + h + ":p" + itoa(pi) + ":s;" + h + ":n:s;" + h + ":n:s"
+					l2 := h + ":n:s;" + h + ":n:s;" + h + ":n:s"
+					g.Emit("life", kind, "1", itoa64(k), itoa(nh), "2", "-", "none", "0", l1+"|"+l2)
+				}
+			}
+		}
+	}
+	// failures of every handler (also non-first ones) followed by clean rounds in the SAME lifetime: per-handler
+	// state must not leak into the retry of the range or into later ranges
+	for _, kind := range kinds {
+		for nh := 2; nh <= 3; nh++ {
+			pats := []string{"n"}
+			for i := 0; i < nh; i++ {
+				pats = append(pats, itoa(i))
+			}
+			for _, f1 := range pats {
+				for _, f2 := range pats {
+					k := int64(2)
+					h := itoa64(30)
+					l := h + ":n:s;" + h + ":" + f1 + ":s;" + h + ":" + f2 + ":s;" + h + ":n:s;" + h + ":n:s;" + h + ":n:s"
+					g.Emit("life", kind, "1", itoa64(k), itoa(nh), "4", "-", "none", "0", l)
 				}
 			}
 		}
